@@ -64,8 +64,8 @@ def build(u):
     u.emit(R, 'impl UnaryOp')
     u.emit(R, 'impl ComparisonOp')
     R14 = RR.r14_iter_any('OperandValueType', 'b == entry_matches(*valid_type, value_type)', label='C07.res.table_entry_match')
-    u.emit(R, 'fn analyze_operand_type', rules=[R14, RR.r18_assert_message, RR.r19_err_question])
-    RS = [RR.r18_assert_message, RR.r19_err_question]
+    u.emit(R, 'fn analyze_operand_type', rules=[R14, RR.r_assert_message, RR.r_err_question])
+    RS = [RR.r_assert_message, RR.r_err_question]
     u.emit(R, 'fn get_type_of_operand', rules=RS)
     u.emit(R, 'fn match_type_of_operands', rules=RS)
     u.emit(R, 'fn resolve_unary_op_type', rules=RS)
